@@ -90,7 +90,8 @@ func (vm *Vm) AddTraceback(exc *py.ExceptionInfo) {
 		Next:   exc.Traceback,
 		Frame:  vm.frame,
 		Lasti:  vm.frame.Lasti,
-		Lineno: vm.frame.Code.Addr2Line(vm.frame.Lasti),
+		// Lasti already points past the instruction being executed
+		Lineno: vm.frame.Code.Addr2Line(vm.frame.Lasti - 1),
 	}
 }
 
